@@ -13,12 +13,20 @@ from mc import histories as H, modstate
 from ref import refversion, refzinc, refjson, neutral as N
 
 VERSIONS = ['none', '2.0', '3.0', '2.5', '3.0.0', '1.0', '4.0']
-KINDS = ['plain', 'na', 'list', 'dict', 'grid', 'xstr', 'list-na']
-V3KINDS = ['na', 'list', 'dict', 'grid', 'xstr', 'list-na']
+# 'ordered-dict' and 'list-subclass': instances of SUBCLASSES of the 3.0-only container kinds (what json.load(object_pairs_hook=...),
+# collections and many frameworks hand over)
+KINDS = ['plain', 'na', 'list', 'dict', 'grid', 'xstr', 'list-na', 'ordered-dict', 'list-subclass']
+V3KINDS = ['na', 'list', 'dict', 'grid', 'xstr', 'list-na', 'ordered-dict', 'list-subclass']
+
+
+class _ListSubclass(list):
+    pass
 
 NEUTRAL = {'plain': ('str', 'plain'), 'na': N.NA, 'list': ('list', (N.num(1.0),)), 'dict': N.mkdict([('a', N.num(1.0))]),
            'grid': N.mkgrid('3.0', [], [('x', [])], [(N.num(1.0),)]), 'xstr': ('xstr', 'hex', b'\x00'),
            'list-na': ('list', (N.NA,))}
+NEUTRAL['ordered-dict'] = NEUTRAL['dict']
+NEUTRAL['list-subclass'] = NEUTRAL['list']
 
 
 def vclass(v):
@@ -57,6 +65,11 @@ def mkval(hs, kind):
         return hs.XStr('hex', '00')
     if kind == 'list-na':
         return [hs.NA]
+    if kind == 'ordered-dict':
+        import collections
+        return collections.OrderedDict([('a', 1.0)])
+    if kind == 'list-subclass':
+        return _ListSubclass([1.0])
     raise HarnessError(kind)
 
 
